@@ -15,6 +15,7 @@ package websocket
 
 //@ func maskGo
 //@ tags C17 C01 C02 C03
+//@ input b[32] specAt(b, i)
 //@ modifies bytes(b)
 //@ ensures [rot] result == specRot(key, len(b))
 //@ ensures [xor] forall(0, len(b), func(i int) bool { return b[i] == old(b[i]) ^ specMaskByte(key, i) })
@@ -63,6 +64,7 @@ package websocket
 
 //@ func readFrameHeader
 //@ tags C03 C09
+//@ input s[14] rdin(r, ghrd(r).pos+i)
 //@ requires r != nil && len(readBuf) == 8
 //@ requires [armed] {C09 C10} ghconn(r) != nil ==> gvcIsArmed(ghconn(r).readTimeout)
 //@ modifies ghrd(r).pos, bytes(readBuf)
@@ -93,6 +95,8 @@ package websocket
 
 //@ func (CloseError).bytesErr
 //@ tags C06 C02
+//@ input reasonlen len(ce.Reason)
+//@ input reason[8] specStrAt(ce.Reason, i)
 //@ ensures [iff] (result1 == nil) == (len(ce.Reason) <= specMaxReason && specSendableCode(ce.Code))
 //@ ensures [len] result1 == nil ==> len(result0) == 2+len(ce.Reason)
 //@ ensures [code] result1 == nil ==> specBE16(result0[0], result0[1]) == int(ce.Code)
@@ -111,6 +115,7 @@ package websocket
 
 //@ func parseClosePayload
 //@ tags C06 C03
+//@ input p[8] specAt(p, i)
 //@ ensures [empty] len(p) == 0 ==> result1 == nil && result0.Code == StatusNoStatusRcvd && result0.Reason == ""
 //@ ensures [one] len(p) == 1 ==> result1 != nil
 //@ ensures [iff] len(p) >= 2 ==> (result1 == nil) == specSendableCode(StatusCode(specBE16(p[0], p[1])))
